@@ -4,8 +4,10 @@ def replay_pack(tags, lengths, encoding, values=None, cfg=None):
     from cardutil.config import config
     cfgs = None
     car = [48, 62, 123, 124, 125]
-    if cfg == 'de62-plain':
+    if cfg in ('de62-plain', 'reconfigured'):
         cfgs = copy.deepcopy(config['bit_config'])
+        if cfg == 'reconfigured':
+            iso8583.dumps({'MTI': '1240', 'PDS0001': 'A' * 600, 'PDS0002': 'B' * 600}, iso_config=cfgs)
         del cfgs['62']['field_processor']
         car = [48, 123, 124, 125]
     vals = values or [''.join(chr(48 + (i * 3 + j) % 10) for j in range(n)) for i, n in enumerate(lengths)]   # digits: look like headers
